@@ -22,7 +22,7 @@ Q2Sizes == {None}
 Q2Aligns == {None, 16}
 Q2Palette == {"u8", "u16", "u32", "u64", "u128", "i8", "i16", "i32", "i64", "i128", "f32", "f64", "bool",
               "cptr", "pvoid", "arr8x3", "arr16x2", "arr32x2", "arr32x0", "unk2", "N", "E", "X", "S", "Z", "arrNx2",
-              "E64", "E128", "arr8x3x2"}
+              "E64", "E128", "arr8x3x2", "void"}
 
 T1Palette == {"u8", "u16", "u32", "u64", "cptr", "arr8x3"}
 T1Sizes == {None, 16}
@@ -69,7 +69,7 @@ PaletteTypes ==
   [u8 |-> TNm("u8"), u16 |-> TNm("u16"), u32 |-> TNm("u32"), u64 |-> TNm("u64"),
    bool |-> TNm("bool"), f32 |-> TNm("f32"), u128 |-> TNm("u128"), f64 |-> TNm("f64"),
    i8 |-> TNm("i8"), i16 |-> TNm("i16"), i32 |-> TNm("i32"), i64 |-> TNm("i64"), i128 |-> TNm("i128"),
-   pvoid |-> TMPtr(TNm("void")), arr32x2 |-> TArr(TNm("u32"), 2),
+   pvoid |-> TMPtr(TNm("void")), void |-> TNm("void"), arr32x2 |-> TArr(TNm("u32"), 2),
    cptr |-> TCPtr(TNm("u8")), mptr |-> TMPtr(TNm("T")),
    arr8x3 |-> TArr(TNm("u8"), 3), arr16x2 |-> TArr(TNm("u16"), 2), arr32x0 |-> TArr(TNm("u32"), 0),
    unk2 |-> TUnk(2), unk0 |-> TUnk(0),
@@ -148,6 +148,11 @@ KF_NonPow2Align ==
   LET d == input.mods[1].defs[TIdx]
   IN ~CHECKPOW2 /\ IsSome(d.align) /\ ~IsPow2(d.align)
 
+(* `void` by value: pyxis gives it size 0, the emitted ::std::ffi::c_void has size 1 (K08) *)
+RECURSIVE ByValueVoid(_)
+ByValueVoid(ty) == CASE ty.k = "nm" -> ty.n = "void" [] ty.k = "arr" -> ByValueVoid(ty.t) [] OTHER -> FALSE
+KF_VoidByValue == \E i \in DOMAIN input.mods[1].defs[TIdx].fields : ByValueVoid(input.mods[1].defs[TIdx].fields[i].ty)
+
 (* for C03 the crate holds no emitted item that T's fields mention, so the *)
 (* compiler model can be evaluated in every terminal state                 *)
 PreCrate == [ptr |-> input.ptr, files |-> {}, exts |-> ExtMap(input), real |-> <<>>]
@@ -188,7 +193,8 @@ ReplayRecord ==
    accepted |-> Accepted, err |-> err, pviol |-> PViol,
    oracle |-> [realisable |-> IF PlainInput THEN Realisable(PreCrate, input, 1, TIdx) ELSE Accepted,
                plain |-> PlainInput,
-               kf |-> IF KF_NonPow2Align THEN <<"C03:nonpow2-align">> ELSE <<>>,
+               kf |-> (IF KF_NonPow2Align THEN <<"C03:nonpow2-align">> ELSE <<>>)
+                      \o (IF KF_VoidByValue THEN <<"C01:void-by-value", "C02:void-by-value", "C03:void-by-value">> ELSE <<>>),
                offs |-> IF Accepted THEN DeclOffsets(Crate, input, 1, TIdx) ELSE <<>>,
                layouts |-> IF Accepted
                            THEN UNION {{[path |-> Join(f.path, n), l |-> RustItem(Crate, Join(f.path, n), 8)]
